@@ -199,8 +199,7 @@ def setSingle (o : Obj) (name : String) (v : AVal) : R Obj :=
     | some e =>
       match v with
       | .int a =>
-        if a < 0 then ierr "negative mask" else
-        let m := a.toNat &&& Mask.all
+        let m := landMask a Mask.all
         if e != 0 then
           if e != m then kerr Rsn.invalidField s!"Cannot overwrite the {name} attribute." else pure o
         else pure { o with mask := some m }
